@@ -155,9 +155,12 @@ type packageInfo struct {
 	TypeInfos        map[ast.Node]*typeInfo
 }
 
-func depsOf(name string, deps packageDeclsDeps) []*ast.Identifier {
+func depsOf(ident *ast.Identifier, deps packageDeclsDeps) []*ast.Identifier {
+	if d, ok := deps[ident]; ok {
+		return d
+	}
 	for g, d := range deps {
-		if g.Name == name {
+		if g.Name == ident.Name {
 			return d
 		}
 	}
@@ -166,7 +169,7 @@ func depsOf(name string, deps packageDeclsDeps) []*ast.Identifier {
 
 func checkDepsPath(path []*ast.Identifier, deps packageDeclsDeps) []*ast.Identifier {
 	last := path[len(path)-1]
-	for _, dep := range depsOf(last.Name, deps) {
+	for _, dep := range depsOf(last, deps) {
 		for _, p := range path {
 			if p.Name == dep.Name {
 				return append(path, dep)
